@@ -77,6 +77,32 @@ def quiet(f, *a, **k):
 
 # =========================================================================================== measurement seams
 
+BACKEND = ["system"]     # which scripted generator the measurements hand to the mechanism: "system" | "numpy"
+NUMPY_BACKEND_MECHS = ("Laplace", "LaplaceTruncated", "LaplaceFolded", "LaplaceBoundedDomain", "LaplaceBoundedNoise",
+                       "Uniform", "Gaussian", "GaussianAnalytic", "Geometric")
+
+
+def srng(uniforms=(), normals=()):
+    """the scripted generator of the current back-end: a secrets.SystemRandom subclass (random / normalvariate — what
+    random_state=None gives) or an np.random.RandomState subclass (random(size) / standard_normal — what an int seed or
+    a RandomState gives; the mechanisms switch on AttributeError / TypeError)"""
+    if BACKEND[0] == "numpy":
+        return seams.ScriptedRandomState(uniforms=uniforms, normals=normals)
+    return seams.ScriptedSystemRandom(uniforms=uniforms, normals=normals)
+
+
+class backend:
+    def __init__(self, name):
+        self.name = name
+
+    def __enter__(self):
+        self.old = BACKEND[0]
+        BACKEND[0] = self.name
+
+    def __exit__(self, *a):
+        BACKEND[0] = self.old
+
+
 FACTORY = {}       # class name -> callable used INSTEAD of the constructor (a live object, see `Live`)
 
 
@@ -148,7 +174,7 @@ def measure_laplace_scale(cls, params, value=0.0, us=UNIT_U):
     """scale used by `randomise` = noise / (unit-parameter noise); for truncated/folded the uniforms are chosen so that
     the noisy value stays inside the domain.  Returns (scale, relative precision of the measurement)."""
     L0 = lap_unit(us)
-    m = mk(cls, params, random_state=seams.ScriptedSystemRandom(us))
+    m = mk(cls, params, random_state=srng(us))
     out = float(quiet(m.randomise, value))
     noise = out - value
     if L0 == 0:
@@ -213,7 +239,7 @@ def measure_bounded_domain(params):
     if math.isinf(hi) and not math.isinf(lo):
         us = (us[0], 1.0 - 2 ** -53, 0.0, 0.5)      # cos(pi u2) = -1 -> L > 0
     L = lap_unit(us)                                # the standard Laplace variate for these uniforms
-    m = mk("LaplaceBoundedDomain", params, random_state=seams.ScriptedSystemRandom(us))
+    m = mk("LaplaceBoundedDomain", params, random_state=srng(us))
     out = float(quiet(m.randomise, v))
     noise = out - v
     if noise == 0:
@@ -223,15 +249,19 @@ def measure_bounded_domain(params):
 
 
 def measure_gauss_sigma(cls, params):
-    rng = seams.ScriptedSystemRandom(normals=[1.0, 1.0])
-    m = mk(cls, params, random_state=rng)
-    out = float(quiet(m.randomise, 0.0))
-    unit = (1.0 + 1.0) / float(np.sqrt(2))
-    return out / unit, float(m._scale)
+    """the standard deviation of the noise randomise adds: the noise is sigma (c1 n1 + c2 n2) in its two normal draws;
+    c1 sigma and c2 sigma are read off with the scripts (1, 0) and (0, 1), and the noise has s.d. sigma sqrt(c1^2 + c2^2)
+    (= sigma for the coded (n1 + n2)/sqrt 2)"""
+    outs = []
+    m = None
+    for script in ([1.0, 0.0], [0.0, 1.0]):
+        m = mk(cls, params, random_state=srng(normals=script))
+        outs.append(float(quiet(m.randomise, 0.0)))
+    return math.hypot(outs[0], outs[1]), float(m._scale)
 
 
 def measure_uniform(params):
-    m = mk("Uniform", params, random_state=seams.ScriptedSystemRandom([0.0]))
+    m = mk("Uniform", params, random_state=srng([0.0]))
     return -float(quiet(m.randomise, 0.0))
 
 
@@ -239,7 +269,7 @@ def measure_bounded_noise(params):
     """(scale, bound) stored after the first randomise + (scale measured from the output, acceptance probes)"""
     us = small_uniforms(4e-4)
     L0 = lap_unit(us)
-    m = mk("LaplaceBoundedNoise", params, random_state=seams.ScriptedSystemRandom(us))
+    m = mk("LaplaceBoundedNoise", params, random_state=srng(us))
     out = float(quiet(m.randomise, 0.0))
     scale_m = out / L0 if L0 != 0 else float("nan")
     return float(m._scale), float(m._noise_bound), scale_m
@@ -255,7 +285,7 @@ def bounded_noise_accepts(params, ratio):
     # second batch (2 samples): the array is reshaped (4, 2): [u1a u1b][u2a u2b][u3a u3b][u4a u4b]
     us2 = (small[0], small[0], 0.0, 0.0, 0.0, 0.0, 0.5, 0.5)
     L1 = lap_unit(us1)
-    m = mk("LaplaceBoundedNoise", params, random_state=seams.ScriptedSystemRandom(us1 + us2))
+    m = mk("LaplaceBoundedNoise", params, random_state=srng(us1 + us2))
     out = float(quiet(m.randomise, 0.0))
     sc = float(m._scale)
     return abs(out - sc * L1) <= 1e-12 * abs(sc * L1), abs(L1)
@@ -458,6 +488,10 @@ def report(ctx, pt, sig, kind, measured, allowed, extra):
         what = (f"live object: {pt.mech}({pt.note['live']['constructed_with']}) -> {pt.note['live']['warm_up']} -> assign "
                 f"{pt.note['live']['assigned']} -> randomise still uses the old calibration: " + what)
         extra = {"case": extra_json(extra), "live": pt.note["live"]}
+    if isinstance(pt.note, dict) and pt.note.get("backend") == "numpy":
+        sig += ":numpy-backend"
+        what = "with random_state = a numpy RandomState (the `except AttributeError/TypeError` branch of randomise): " + what
+        extra = {"case": extra_json(extra), "backend": "numpy"}
     n = ctx.counters.get("sig:" + sig, 0)
     ctx.count("sig:" + sig)
     if n < 5:       # the runner keeps 200 violations in all: repetitions must not crowd out a different signature
@@ -1154,6 +1188,30 @@ def run_points(ctx, pts):
         sens = pt.params.get("sensitivity", 0)
         ctx.case(pt.key() if sens else None)
         MECHS[pt.mech][4](ctx, pt, r.fork(i))
+    # the same calibration must be in force on the numpy back-end (int seed / RandomState: the other branch of randomise)
+    for i, pt in enumerate(good):
+        if pt.mech not in NUMPY_BACKEND_MECHS or i % 2:
+            continue
+        pt2 = Point(pt.mech, pt.params)
+        pt2.note = {"backend": "numpy"}
+        try:
+            with backend("numpy"):
+                MECHS[pt.mech][1](pt2)
+        except seams.ScriptExhausted:
+            ctx.count("numpy_backend_unmeasurable")
+            continue
+        except (ArithmeticError, ValueError, TypeError, AttributeError, RecursionError) as e:
+            ctx.disagree(f"calibration.{pt.mech}.numpy-backend-raises", pt.params, "a calibration", f"{type(e).__name__}: {e}")
+            continue
+        same, key = same_meas(pt.meas, pt2.meas)
+        ctx.case(None)
+        if same:
+            ctx.count("numpy_backend_same")
+            ctx.trace_ok()
+            continue
+        ctx.disagree(f"calibration.{pt.mech}.numpy-backend", pt.params, {key: pt.meas.get(key)}, {key: pt2.meas.get(key)},
+                     note="the noise randomise adds depends on the type of random_state")
+        MECHS[pt.mech][4](ctx, pt2, r.fork(("np", i)))
     for pt in good[:40:7]:
         ctx.sample({"mechanism": pt.mech, "params": pt.params, "measured_on_implementation": pt.meas})
 
@@ -1346,7 +1404,13 @@ def replay(ctx, data):
         live_case(ctx, dd["mech"], p1, asg, int(lv["warm_seed"]), list(lv["ops"]), int(lv["dseed"]))
         return ctx.counters.get("violations_raw", 0) > before
     pt = Point(dd["mech"], params)
-    MECHS[pt.mech][1](pt)
+    if isinstance(case, dict) and case.get("backend") == "numpy":
+        pt.note = {"backend": "numpy"}
+        with backend("numpy"):
+            MECHS[pt.mech][1](pt)
+        case = case.get("case")
+    else:
+        MECHS[pt.mech][1](pt)
     cases = None
     if isinstance(case, dict) and "t" in case:
         cases = [(D(case.get("x", "0")), D(case["t"]))]
